@@ -133,6 +133,9 @@ pub enum Op {
     Misuse { h: H, what: u8 },
     /// placeholder left by the shrinker; `slot` keeps handle numbering stable
     Skip { slot: bool },
+    /// the client drops bucket handle `h` (later operations do not use it): what was written through it must
+    /// stay part of the transaction although nothing refers to that bucket any more
+    DropH { h: H },
 }
 
 impl Op {
@@ -159,6 +162,7 @@ impl Op {
             Op::NextInt { .. } => "next_int",
             Op::Misuse { .. } => "misuse_deleted",
             Op::Skip { .. } => "skip",
+            Op::DropH { .. } => "drop-handle",
         }
     }
     /// operations that hand out a bucket handle (they always take a handle slot,
